@@ -106,6 +106,13 @@ func (v *vPart) follower(replica string, offset int64) {
 	v.nc.Flush()
 }
 
+// followerAt sends a replication request stamped with the given leader epoch.
+func (v *vPart) followerAt(replica string, offset int64, epoch uint64) {
+	req, _ := proto.MarshalReplicationRequest(&proto.ReplicationRequest{ReplicaID: replica, Offset: offset, LeaderEpoch: epoch})
+	v.nc.PublishRequest(v.p.getReplicationRequestInbox(), fmt.Sprintf("verif.repl.%s", replica), req)
+	v.nc.Flush()
+}
+
 func (v *vPart) isrOffsets() map[string]int64 {
 	v.p.mu.RLock()
 	defer v.p.mu.RUnlock()
